@@ -17,6 +17,7 @@ from .srcmodel import SrcModel
 VARIANTS = [
     ("F", "[{i}]", F), ("U", "[{i}]", U), ("K", "[{i}]", K), ("hint", "[50{i}]", None),
     ("F+fc", "[{i}][90{i}]", F), ("U+hint", "[{i}] U [50{i}]", U), ("invalid", "[{i}] O [50{i}]", F),
+    ("U+fc", "[{i}] U ([1{i}][90{i}])", U),  # unfulfilled as a whole, yet it collects the violated [90i] of a fulfilled branch
 ]
 MM_SPELL = ["Muss", "soll", "K", "m", "SOLL", "kann", "S", "Kann", "M"]
 PO_SPELL = ["X", "o", "U", "x", "O", "u"]
@@ -71,12 +72,17 @@ def cases(tier: str) -> List[List[Tuple[str, str, Optional[str], str]]]:
     maxk = 3 if tier == "quick" else 4
     spell = itertools.cycle(MM_SPELL)
     for k in range(1, maxk + 1):
-        variants = VARIANTS if k <= 2 else VARIANTS[:3] + (VARIANTS[6:] if tier != "quick" or k == 3 else [])
+        variants = VARIANTS if k <= 2 else VARIANTS[:3] + (VARIANTS[6:8] if tier != "quick" or k == 3 else [])
         for combo in itertools.product(variants, repeat=k):
             parts = [("mm", next(spell), tmpl.format(i=i + 1), label) for i, (label, tmpl, _st) in enumerate(combo)]
             out.append(parts)
             if k < maxk:
                 out.append([*parts, ("mm", next(spell), None, "bare")])
+    # the same indicator in several parts (e.g. after rewriting SOLL to MUSS)
+    for word in ("Muss", "kann", "S"):
+        for combo in itertools.product(VARIANTS[:3], repeat=2):
+            out.append([("mm", word, tmpl.format(i=i + 1), label) for i, (label, tmpl, _st) in enumerate(combo)])
+        out.append([("mm", word, "[1]", "U"), ("mm", word, "[2]", "F"), ("mm", word, None, "bare")])
     for w in MM_SPELL[:6]:
         out.append([("mm", w, None, "bare")])
     for w in PO_SPELL:
@@ -96,6 +102,7 @@ def check_case(model: SrcModel, parts4) -> List[Tuple[str, str, str]]:
         st = {v[0]: v[2] for v in VARIANTS}.get(label)
         if st is not None:
             rc[str(i)] = st
+        rc[f"1{i}"] = F
         fc[f"90{i}"] = (False, f"90{i} violated")
     own = []
     for p in parts:
